@@ -690,6 +690,9 @@ func GenC01(rng *rand.Rand, thorough bool, emit func(*Sx)) {
 		wire := body + ".\r\n"
 		want := string(unstuffed([]byte(body)))
 		for mi, mp := range mails(len(want)) {
+			if strings.Contains(mp, "=-") {
+				continue // empty body: there is no size below it
+			}
 			for _, mode := range []string{"smtp", "lmtp", "lmtp-session", "helo"} {
 				for _, limit := range []int64{0, int64(len(want)), int64(len(want)) + 7} {
 					n++
